@@ -413,6 +413,10 @@ func NewManager(
 	// initialize da included height
 	if height, err := m.store.GetMetadata(ctx, storepkg.DAIncludedHeightKey); err == nil && len(height) == 8 {
 		m.daIncludedHeight.Store(binary.LittleEndian.Uint64(height))
+	} else if genesis.InitialHeight > 1 {
+		// the first block that can be included is the one at the initial height; starting
+		// below it at zero would make the includer wait for block 1, which never exists
+		m.daIncludedHeight.Store(genesis.InitialHeight - 1)
 	}
 
 	// Set the default publishBlock implementation
